@@ -241,34 +241,27 @@ def compact (p : Part) : Part :=
   let amb := hasDup (live.map (·.id)) || hasDup (live.map (·.key)) || live.any (·.id == 0)
   ({ p with idxFile := some idx, ambiguous := p.ambiguous || amb }).recover
 
-/-- the per-partition part of `CreateSeriesListIfNotExists`: `keys` are this partition's keys
-    of the batch, in batch order.  Returns their ids. -/
-def create (p : Part) (keys : List Bytes) : Part × List Nat :=
-  -- first pass under the read lock
-  let ids0 := keys.map p.findID
-  if ids0.all (· ≠ 0) then (p, ids0) else
-  -- second pass under the write lock: `newIDs` remembers keys created in this batch
-  let step := fun (acc : Part × List (Bytes × Nat) × List Entry × List Nat) (ki : Bytes × Nat) =>
-    let (q, newIDs, pending, out) := acc
-    let (key, id0) := ki
-    if id0 ≠ 0 then (q, newIDs, pending, out ++ [id0]) else
-    match newIDs.find? (·.1 = key) with
-    | some (_, id) => (q, newIDs, pending, out ++ [id])
-    | none =>
-      let id1 := q.findID key
-      if id1 ≠ 0 then (q, newIDs, pending, out ++ [id1]) else
-      let id := q.seq
-      let (q', off) := q.append insertFlag id key
-      ({ q' with seq := q.seq + partN }, (key, id) :: newIDs,
-        -- `seriesKeyByOffset(offset)` reads the key back from the segment: for a well-formed
-        -- key (`wfKey`, enforced by the driver) these are exactly the bytes just written
-        pending ++ [⟨insertFlag, id, key, off⟩], out ++ [id])
-  let (q, _, pending, out) := (keys.zip ids0).foldl step (p, [], [], [])
-  -- `index.Insert` for every new series, after the flush
-  let q := pending.foldl execEntry q
-  -- compaction threshold
-  let q := if q.threshold ≠ 0 ∧ q.memIDOff.length ≥ q.threshold then q.compact else q
-  (q, out)
+/-- one key of `CreateSeriesListIfNotExists`: look it up, else `insert` (id = `seq`, append the
+    entry, advance `seq`) and `index.Insert`.
+    The code runs two passes over the batch (a lookup pass under the read lock; then, under the
+    write lock, lookup again, append, and only after the flush `index.Insert` for all new
+    entries, with `newIDs` catching a key repeated within the batch).  Processing the keys one
+    after the other with an immediate `index.Insert` gives the same ids and the same final
+    state: a new entry only adds bindings for its own key and its own (new) id. -/
+def createOne (p : Part) (key : Bytes) : Part × Nat :=
+  let id0 := p.findID key
+  if id0 ≠ 0 then (p, id0) else
+  let id := p.seq
+  let (q, off) := p.append insertFlag id key
+  -- `seriesKeyByOffset(offset)` reads the key back from the segment: for a well-formed key
+  -- (`wfKey`, enforced by the driver) these are exactly the bytes just written
+  (({ q with seq := p.seq + partN }).execEntry ⟨insertFlag, id, key, off⟩, id)
+
+/-- the compaction threshold is checked at the end of a partition's batch when something was
+    written (`old`: the partition before the batch) -/
+def afterCreate (old new : Part) : Part :=
+  if new.file.length ≠ old.file.length ∧ new.threshold ≠ 0 ∧ new.memIDOff.length ≥ new.threshold
+  then new.compact else new
 
 /-- `DeleteSeriesID` -/
 def delete (p : Part) (id : Nat) : Part :=
@@ -325,19 +318,22 @@ def see (s : SFile) (ks : List (Bytes × Nat)) : SFile :=
 def issue (s : SFile) (ids : List Nat) : SFile :=
   { s with issued := ids.foldl (fun acc id => if id = 0 ∨ acc.contains id then acc else acc ++ [id]) s.issued }
 
-/-- `SeriesFile.CreateSeriesListIfNotExists` without bookkeeping: every partition handles its
-    keys of the batch; the answers are put back in batch order. -/
+/-- the keys of a batch, one after the other, each in its partition (the partitions work
+    concurrently in the code, but share nothing) -/
+def createKeys : List Part → List (Bytes × Nat) → List Part × List Nat
+  | ps, [] => (ps, [])
+  | ps, k :: ks =>
+    match ps[k.2]? with
+    | none => let (r, ids) := createKeys ps ks; (r, 0 :: ids)
+    | some p =>
+      let (q, id) := p.createOne k.1
+      let (r, ids) := createKeys (ps.set k.2 q) ks
+      (r, id :: ids)
+
+/-- `SeriesFile.CreateSeriesListIfNotExists` without bookkeeping -/
 def createRaw (s : SFile) (keys : List (Bytes × Nat)) : SFile × List Nat :=
-  let res := s.parts.map fun p => p.create ((keys.filter (·.2 = p.pid)).map (·.1))
-  let parts' := res.map (·.1)
-  -- ids in batch order: the j-th key of partition p gets the j-th id of that partition
-  let pick := fun (acc : List Nat × List (List Nat)) (k : Bytes × Nat) =>
-    let (out, rest) := acc
-    match rest[k.2]? with
-    | some (id :: more) => (out ++ [id], rest.set k.2 more)
-    | _ => (out ++ [0], rest)
-  let (ids, _) := keys.foldl pick ([], res.map (·.2))
-  ({ s with parts := parts' }, ids)
+  let (ps, ids) := createKeys s.parts keys
+  ({ s with parts := List.zipWith Part.afterCreate s.parts ps }, ids)
 
 def create (s : SFile) (keys : List (Bytes × Nat)) : SFile × List Nat :=
   let (s', ids) := s.createRaw keys
@@ -376,7 +372,8 @@ def torn (s : SFile) (k : Bytes × Nat) (cut : Nat) : SFile × Nat :=
   | none => (s, 0)
   | some p =>
     let size0 := p.file.length
-    let (q, _) := ({ p with threshold := 0 }).create [k.1]
+    -- the harness sets CompactThreshold = 0 for this create: no index compaction
+    let (q, _) := p.createOne k.1
     let q := { q with file := tear q.file (size0 + cut) q.file.length }
     let s' := ({ s with parts := s.parts.set k.2 q }).reopen
     let id := s'.findID k
